@@ -768,6 +768,13 @@ func (ex *Exec) validUTF8(s *Str) *smt.Term {
 func (ex *Exec) asciiCase(s *Str, upper bool) *Str {
 	ex.needBytes(s)
 	b := ex.b
+	// concrete text: the library's own mapping (non-ASCII letters included)
+	if c, ok := s.concrete(); ok {
+		if upper {
+			return ex.strConst(strings.ToUpper(c))
+		}
+		return ex.strConst(strings.ToLower(c))
+	}
 	var ascii []*smt.Term
 	for _, c := range s.b {
 		ascii = append(ascii, b.Lt(c, b.I64(0x80)))
